@@ -546,6 +546,7 @@ func (c *stickyComp) Run(h *hlib.History) (mons []hlib.Mon, ok bool) {
 		w.WriteHeader(200)
 	})
 	var lb lbT
+	var inner lbT // variant 1: the balancer the rebalancer wraps; some servers are administered there directly
 	if variant == 0 {
 		ss := roundrobin.NewStickySession(cookieName).SetCookieValue(cv)
 		rr, err := roundrobin.New(next, roundrobin.EnableStickySession(ss))
@@ -564,6 +565,26 @@ func (c *stickyComp) Run(h *hlib.History) (mons []hlib.Mon, ok bool) {
 			return nil, false
 		}
 		lb = rb
+		inner = rr
+	}
+	// the pool is what Servers() reports, whoever put a server there: with a rebalancer, the servers of every third
+	// (scheme, host, path) key are added to and removed from the wrapped balancer directly (as when it was filled before
+	// being wrapped, or is shared with another administrator)
+	admin := func(u int) lbT {
+		if inner != nil {
+			first := u
+			for i := 0; i < u; i++ {
+				if ukeys[i] == ukeys[u] {
+					first = i
+					break
+				}
+			}
+			if first%3 == 1 {
+				hlib.Count("pool_changes_made_on_the_wrapped_balancer", 1)
+				return inner
+			}
+		}
+		return lb
 	}
 
 	sim := &simRR{index: -1}
@@ -652,7 +673,7 @@ func (c *stickyComp) Run(h *hlib.History) (mons []hlib.Mon, ok bool) {
 				return nil, false
 			}
 			pu, _ := url.Parse(universe[u])
-			_ = lb.UpsertServer(pu, roundrobin.Weight(w))
+			_ = admin(u).UpsertServer(pu, roundrobin.Weight(w))
 			if m := memberWithKey(u); m == -1 {
 				members = append(members, u)
 				sw := w
@@ -680,7 +701,7 @@ func (c *stickyComp) Run(h *hlib.History) (mons []hlib.Mon, ok bool) {
 				return nil, false
 			}
 			pu, _ := url.Parse(universe[u])
-			_ = lb.RemoveServer(pu)
+			_ = admin(u).RemoveServer(pu)
 			if m := memberWithKey(u); m != -1 {
 				for i := range members {
 					if members[i] == m {
